@@ -96,6 +96,9 @@ func C04(c *core.Ctx) {
 	addFn("std/ndn/spec_2022", "Spec", "ReadData")
 	addFn("std/ndn/spec_2022", "Spec", "ReadInterest")
 	addFn("fw/face", "", "readTlvStream")
+	if p.Func("fw/face", "", "readTlvDatagrams") != nil {
+		addFn("fw/face", "", "readTlvDatagrams")
+	}
 	addFn("fw/face", "NDNLPLinkService", "handleIncomingFrame")
 	addFn("fw/face", "NDNLPLinkService", "reassemblePacket")
 	addFn("fw/face", "linkServiceBase", "dispatchInterest")
@@ -355,6 +358,8 @@ func C04(c *core.Ctx) {
 	}
 	c.Extra["decoded_slice_const_index_sinks"] = nConst
 	c.Floor("R4.6", "constant / last-element indices into decoded slices", nConstDecided, 2)
+
+	c04Round4(c)
 
 	// ---- R4.7 optional elements of a decoded message are dereferenced only where they were
 	// found present: in the function, through the presence of a coupled element, or at
@@ -709,5 +714,198 @@ func c04StreamProgress(c *core.Ctx, fn *ssa.Function) {
 		c.Decide(shiftMax+1 >= rejectMin, "R4.5", "stream-compaction-covers-pending", c.Pos(cp),
 			fmt.Sprintf("pending ≤ %d is compacted, pending ≥ %d is rejected: no value in between", shiftMax, rejectMin),
 			fmt.Sprintf("the receive buffer is compacted only while pending ≤ %d but the stream is rejected only from pending ≥ %d: for the values in between with the buffer full, Read is called with an empty slice on every iteration (the receive loop spins)", shiftMax, rejectMin))
+	}
+}
+
+// c04Round4 — rules added for defects a bug-hunting agent demonstrated on the unmodified tree.
+//
+// R4.8 a datagram socket keeps frame boundaries: the stream de-framer, which carries its
+// receive and parse offsets from one Read to the next, is never given a UDP connection (a
+// truncated datagram would be completed with the bytes of the next one; an oversize
+// announcement would end the face).
+//
+// R4.9 the result of a decoder is used only when decoding succeeded: for every call of a
+// generated Parse* function or of ReadPacket/ReadData/ReadInterest whose error result is
+// looked at, no field of the decoded value is reachable on the edge asserting err != nil.
+//
+// R4.7b the consumers of decoded routing and sync messages dereference optional elements
+// only where they were found present (same rule as R4.7, packages dv/… and std/sync, std/schema/svs).
+//
+// R4.10 the link service's store of partially reassembled messages is bounded: creating an
+// entry is preceded by a test of the store's size (or of an age), so that a peer cannot
+// pin memory with first fragments of messages it never completes.
+func c04Round4(c *core.Ctx) {
+	p := c.P
+	// ---- R4.8
+	if rs := p.Func("fw/face", "", "readTlvStream"); rs != nil {
+		n := 0
+		for _, ci := range p.Callers(rs) {
+			if strings.HasSuffix(p.File(ci.Parent().Pos()), "_test.go") {
+				continue
+			}
+			n++
+			_, args := core.CallArgs(ci.Common())
+			bad := ""
+			if len(args) > 0 {
+				v := core.Strip(args[0])
+				if mi, ok := v.(*ssa.MakeInterface); ok {
+					v = mi.X
+				}
+				ts := v.Type().String()
+				if strings.Contains(ts, "net.UDPConn") || strings.Contains(ts, "net.PacketConn") || strings.Contains(ts, "net.IPConn") {
+					bad = ts
+				}
+			}
+			c.Decide(bad == "", "R4.8", "stream-deframer-not-on-datagrams:"+core.FuncName(ci.Parent()), c.Pos(ci), "the stream de-framer reads from a stream connection", core.FuncName(ci.Parent())+" runs the stream de-framer (offsets carried across reads) over a datagram socket ("+bad+"): a truncated datagram is completed with the bytes of the next one — the link service receives a frame spliced from two datagrams and the good packet is lost — and a short datagram announcing a large block ends the face")
+		}
+		c.Floor("R4.8", "stream de-framer call sites", n, 2)
+	}
+
+	// ---- R4.9
+	isDecoder := func(id core.CalleeID) bool {
+		if strings.HasPrefix(id.Name, "Parse") && id.Recv == "" && (strings.Contains(id.Pkg, "std/") || strings.Contains(id.Pkg, "dv/")) {
+			return true
+		}
+		if id.Pkg == "std/ndn/spec_2022" && (id.Name == "ReadPacket" || id.Name == "ReadData" || id.Name == "ReadInterest") {
+			return true
+		}
+		return false
+	}
+	nDec, nUse := 0, 0
+	for _, pk := range p.All {
+		rel := strings.TrimPrefix(pk.PkgPath, core.ModPath+"/")
+		for _, fn := range p.FuncsIn(pk.PkgPath) {
+			file := p.File(fn.Pos())
+			if strings.HasSuffix(file, "_test.go") || strings.HasSuffix(file, "zz_generated.go") || strings.Contains(rel, "/tests/") || strings.Contains(rel, "examples") {
+				continue
+			}
+			core.Instrs(fn, func(in ssa.Instruction) {
+				cl, ok := in.(*ssa.Call)
+				if !ok {
+					return
+				}
+				id, ok := core.Callee(&cl.Call)
+				if !ok || !isDecoder(id) {
+					return
+				}
+				tup, ok := cl.Type().(*types.Tuple)
+				if !ok || tup.Len() < 2 {
+					return
+				}
+				var res, errv ssa.Value
+				for _, r := range core.Refs(cl) {
+					if ex, ok := r.(*ssa.Extract); ok {
+						if ex.Index == 0 {
+							res = ex
+						}
+						if ex.Index == tup.Len()-1 && types.Identical(ex.Type(), types.Universe.Lookup("error").Type()) {
+							errv = ex
+						}
+					}
+				}
+				if res == nil || errv == nil {
+					return
+				}
+				if _, isPtr := res.Type().Underlying().(*types.Pointer); !isPtr {
+					return
+				}
+				nDec++
+				failed := atomNonNil("decode error", errv)
+				absent := atomNonNil("decoded value", res)
+				// dereferences of the result (directly, or after a spill to a local)
+				var uses []ssa.Instruction
+				var collect func(v ssa.Value, d int)
+				collect = func(v ssa.Value, d int) {
+					if d > 2 {
+						return
+					}
+					for _, r := range core.Refs(v) {
+						switch x := r.(type) {
+						case *ssa.FieldAddr:
+							if x.X == v {
+								uses = append(uses, x)
+							}
+						case *ssa.UnOp:
+							if x.Op == token.MUL && x.X == v {
+								uses = append(uses, x)
+							}
+						case *ssa.Store:
+							if x.Val == v {
+								if al, isAl := x.Addr.(*ssa.Alloc); isAl {
+									for _, r2 := range core.Refs(al) {
+										if u, isU := r2.(*ssa.UnOp); isU && u.Op == token.MUL {
+											collect(u, d+1)
+										}
+									}
+								}
+							}
+						}
+					}
+				}
+				collect(res, 0)
+				if len(uses) == 0 {
+					return
+				}
+				nUse += len(uses)
+				c.Funcs[core.FuncName(fn)] = true
+				top := core.RootOf(fn)
+				if top == nil {
+					top = fn
+				}
+				g := core.GateDeep(top, uses, neg(failed))
+				ok2 := g.OK && g.PassEdges > 0
+				if !ok2 {
+					g2 := core.GateDeep(top, uses, pos(absent))
+					ok2 = g2.OK && g2.PassEdges > 0
+				}
+				c.Decide(ok2, "R4.9", "decoded-value-used-only-on-success:"+core.FuncName(fn)+":"+id.Name, c.Pos(cl), fmt.Sprintf("%d field accesses of the decoded value, all unreachable when the decoder returned an error", len(uses)), core.FuncName(fn)+" reads fields of the value returned by "+id.Name+" on a path on which the decoder reported an error (the error is logged or ignored and execution falls through): an undecodable input makes it dereference nil")
+			})
+		}
+	}
+	c.Floor("R4.9", "decoder calls whose result is dereferenced", nDec, 8)
+	c.Extra["decoded_value_field_accesses"] = nUse
+
+	// ---- R4.7b
+	reportOptionalDerefs(c, "R4.7b", []string{"dv/dv", "dv/table", "dv/nfdc", "std/sync", "std/schema/svs", "std/schema"}, nil, 4, "an advertisement or sync message that omits the element crashes the routing daemon / sync node (nil pointer dereference in a goroutine without recover)")
+
+	// ---- R4.10
+	if ra := c.Fn("R4.10", "fw/face", "NDNLPLinkService", "reassemblePacket"); ra != nil {
+		bounded := false
+		var create ssa.Instruction
+		check := func(fn *ssa.Function) {
+			core.InstrsDeep(fn, func(in ssa.Instruction) {
+				if mu, ok := in.(*ssa.MapUpdate); ok {
+					if t, isMap := mu.Map.Type().Underlying().(*types.Map); isMap {
+						if _, isU := t.Key().Underlying().(*types.Basic); isU && fn == ra {
+							if _, path := core.FieldPath(mu.Map); len(path) > 0 {
+								create = in
+							}
+						}
+					}
+				}
+				if b, ok := in.(*ssa.BinOp); ok && (b.Op == token.GEQ || b.Op == token.GTR || b.Op == token.LSS || b.Op == token.LEQ) {
+					for _, side := range []ssa.Value{b.X, b.Y} {
+						if l, isLen := core.LenOf(core.StripConv(side)); isLen {
+							if t, isMap := l.Type().Underlying().(*types.Map); isMap {
+								if _, isU := t.Key().Underlying().(*types.Basic); isU {
+									if _, path := core.FieldPath(l); len(path) > 0 {
+										bounded = true
+									}
+								}
+							}
+						}
+					}
+				}
+			})
+		}
+		check(ra)
+		if hf := p.Func("fw/face", "NDNLPLinkService", "handleIncomingFrame"); hf != nil {
+			check(hf)
+		}
+		if create == nil {
+			c.Und("R4.10", "reassembly-store-bounded", p.Pos(ra.Pos()), "no creation of a partial-message entry found in reassemblePacket")
+		} else {
+			c.Decide(bounded, "R4.10", "reassembly-store-bounded", c.Pos(create), "the number of partially received messages is tested before an entry is created", "reassemblePacket creates an entry (a slot list of FragCount elements) for every first fragment and never gives up unfinished messages: 2000 frames of 22 bytes announcing FragCount=8800 make a face retain about 400 MB — memory out of proportion to the input, over a history of frames")
+		}
 	}
 }
